@@ -98,7 +98,8 @@ def input_job(job):
                                outputs={'o': f"{first}/{spec.nodes[first].ops[0]}/x"})
         else:
             c = tv.compile_template(ct, vectorize=job['vectorize'], step_size=float(dt), solver=job['solver'],
-                                    inputs={job['target']: arr}, backend=job.get('backend', 'default'))
+                                    inputs={job['target']: arr}, backend=job.get('backend', 'default'),
+                                    **job.get('compile_kw', {}))
     except tv.CompileError as e:
         out['compile_error'] = str(e)
         out['tally'] = tally.as_dict()
@@ -181,6 +182,11 @@ def jobs_for(tier):
                       solver=solver, vectorize=True, hier=False, alt=True))
         J.append(dict(key=f"in:all/li/u:N=4:cols=0:{solver}:vec=True:alt-names", target='all/li/u', N=4, cols=0,
                       solver=solver, vectorize=True, hier=False, alt=True))
+    # the index-based edge branch (forced by configuration; reached by default with >= 11 addressed nodes)
+    for solver in ('euler', 'scipy'):
+        for cols in (0, 3):
+            J.append(dict(key=f"in:all/li/u:N=3:cols={cols}:{solver}:vec=True:index-branch", target='all/li/u', N=3,
+                          cols=cols, solver=solver, vectorize=True, hier=False, compile_kw=dict(matrix_sparseness=1.0)))
     # through run(): fixed step with N = T/dt samples; adaptive with FEWER / MORE samples than T/dt
     for vec in (True, False):
         J.append(dict(key=f"in:a0/li/u:N=4:cols=0:euler:vec={vec}:via-run", target='a0/li/u', N=4, cols=0, solver='euler',
